@@ -66,6 +66,9 @@ pub struct ParScn {
     /// source call index at which the source returns an I/O error
     #[serde(default)]
     pub io_fault_at: Option<usize>,
+    /// which error (see ChunkSource::read)
+    #[serde(default)]
+    pub io_fault_kind: u8,
     pub consumer: Consumer,
     #[serde(default)]
     pub fail_reader_init: bool,
@@ -87,6 +90,10 @@ pub struct ParScn {
     /// dataset_init call, 2 = the consumer function when it starts
     #[serde(default)]
     pub reader_waits_for: u8,
+    /// record-set level APIs: after the end marker the consumer asks this many more times (each
+    /// further call has to return, with the end marker again)
+    #[serde(default)]
+    pub pull_past_end: u8,
 }
 
 #[derive(Clone, Debug, PartialEq)]
@@ -105,6 +112,7 @@ pub struct Hist {
     pub fills_started: usize,
     pub fills_ok: usize,
     pub next_started: usize,
+    pub pulled_past_end: usize,
     pub runahead: Option<String>,
     pub max_runahead: i64,
     pub tags: BTreeSet<u32>,
@@ -268,6 +276,7 @@ pub struct ChunkSource {
     i: usize,
     calls: usize,
     fail_at: Option<usize>,
+    fail_kind: u8,
     hist: Option<SharedHist>,
     /// Some((queue_len, capacity)): every record fits the buffer, so each fill_data call pulls at
     /// most `capacity` bytes and bytes pulled <= (queue_len + finished works) * capacity
@@ -276,7 +285,11 @@ pub struct ChunkSource {
 
 impl ChunkSource {
     pub fn new(data: Arc<Vec<u8>>, script: &[u32], fail_at: Option<usize>, hist: Option<SharedHist>) -> ChunkSource {
-        ChunkSource { data, pos: 0, script: script.to_vec(), i: 0, calls: 0, fail_at, hist, bound: None }
+        ChunkSource { data, pos: 0, script: script.to_vec(), i: 0, calls: 0, fail_at, fail_kind: 0, hist, bound: None }
+    }
+    pub fn with_fault_kind(mut self, k: u8) -> ChunkSource {
+        self.fail_kind = k;
+        self
     }
     pub fn with_bound(mut self, queue_len: usize, cap: usize) -> ChunkSource {
         self.bound = Some((queue_len, cap));
@@ -305,7 +318,17 @@ impl Read for ChunkSource {
         let c = self.calls;
         self.calls += 1;
         if Some(c) == self.fail_at {
-            return Err(io::Error::from(io::ErrorKind::BrokenPipe));
+            // (kinds a reader might be tempted to treat like Interrupted included)
+            return Err(match self.fail_kind % 8 {
+                0 => io::Error::from(io::ErrorKind::BrokenPipe),
+                1 => io::Error::from(io::ErrorKind::WouldBlock),
+                2 => io::Error::from(io::ErrorKind::TimedOut),
+                3 => io::Error::from(io::ErrorKind::UnexpectedEof),
+                4 => io::Error::new(io::ErrorKind::Other, "injected"),
+                5 => io::Error::from(io::ErrorKind::InvalidData),
+                6 => io::Error::from_raw_os_error(5),
+                _ => io::Error::from_raw_os_error(11),
+            });
         }
         let mut want = usize::MAX;
         if !self.script.is_empty() {
@@ -360,7 +383,7 @@ pub fn sequential(scn: &ParScn) -> (Vec<(usize, u64)>, Option<String>) {
     let fasta = matches!(scn.api, Api::Fasta | Api::FastaInit | Api::ReusableFasta);
     if fasta {
         use fasta::Record;
-        let mut r = fasta::Reader::with_capacity(ChunkSource::new(data, &scn.script, scn.io_fault_at, None), scn.cap.max(3));
+        let mut r = fasta::Reader::with_capacity(ChunkSource::new(data, &scn.script, scn.io_fault_at, None).with_fault_kind(scn.io_fault_kind), scn.cap.max(3));
         while let Some(x) = r.next() {
             match x {
                 Ok(rec) => recs.push((rec_index(rec.head()), rec_hash(rec.head(), &rec.owned_seq()))),
@@ -372,7 +395,7 @@ pub fn sequential(scn: &ParScn) -> (Vec<(usize, u64)>, Option<String>) {
         }
     } else {
         use fastq::Record;
-        let mut r = fastq::Reader::with_capacity(ChunkSource::new(data, &scn.script, scn.io_fault_at, None), scn.cap.max(3));
+        let mut r = fastq::Reader::with_capacity(ChunkSource::new(data, &scn.script, scn.io_fault_at, None).with_fault_kind(scn.io_fault_kind), scn.cap.max(3));
         while let Some(x) = r.next() {
             match x {
                 Ok(rec) => recs.push((rec_index(rec.head()), rec_hash(rec.head(), rec.seq()))),
@@ -459,6 +482,17 @@ fn consume_sets<D, E: std::fmt::Debug, O>(
         match rsets.next() {
             None => {
                 hist.lock().unwrap().arrivals.push(Arrival::End);
+                for _ in 0..scn.pull_past_end {
+                    hist.lock().unwrap().next_started += 1;
+                    let a = match rsets.next() {
+                        None => Arrival::End,
+                        Some(Ok((d, o))) => describe(d, o),
+                        Some(Err(e)) => Arrival::Err(format!("{:?}", e)),
+                    };
+                    let mut h = hist.lock().unwrap();
+                    h.pulled_past_end += 1;
+                    h.arrivals.push(a);
+                }
                 return;
             }
             Some(Ok((d, o))) => {
@@ -584,7 +618,7 @@ fn body(scn: &ParScn, hist: &SharedHist) {
         }
         Api::Fasta | Api::FastaInit => {
             use fasta::Record;
-            let src = ChunkSource::new(data, &scn.script, scn.io_fault_at, Some(hist.clone()));
+            let src = ChunkSource::new(data, &scn.script, scn.io_fault_at, Some(hist.clone())).with_fault_kind(scn.io_fault_kind);
             let h1 = hist.clone();
             let h2 = hist.clone();
             let ws = scn.worker_stall;
@@ -677,7 +711,7 @@ fn body(scn: &ParScn, hist: &SharedHist) {
         }
         Api::Fastq | Api::FastqInit => {
             use fastq::Record;
-            let src = ChunkSource::new(data, &scn.script, scn.io_fault_at, Some(hist.clone()));
+            let src = ChunkSource::new(data, &scn.script, scn.io_fault_at, Some(hist.clone())).with_fault_kind(scn.io_fault_kind);
             let h1 = hist.clone();
             let h2 = hist.clone();
             let ws = scn.worker_stall;
@@ -770,7 +804,7 @@ fn body(scn: &ParScn, hist: &SharedHist) {
         }
         Api::ReusableFastq => {
             use fastq::Record;
-            let mut src = ChunkSource::new(data, &scn.script, scn.io_fault_at, Some(hist.clone()));
+            let mut src = ChunkSource::new(data, &scn.script, scn.io_fault_at, Some(hist.clone())).with_fault_kind(scn.io_fault_kind);
             if scn.io_fault_at.is_none() && max_record_extent(&scn.input) + 2 <= scn.cap.max(3) {
                 src = src.with_bound(q, scn.cap.max(3));
             }
@@ -808,7 +842,7 @@ fn body(scn: &ParScn, hist: &SharedHist) {
         }
         Api::Records => {
             use fastq::Record;
-            let src = ChunkSource::new(data, &scn.script, scn.io_fault_at, Some(hist.clone()));
+            let src = ChunkSource::new(data, &scn.script, scn.io_fault_at, Some(hist.clone())).with_fault_kind(scn.io_fault_kind);
             let reader = fastq::Reader::with_capacity(src, scn.cap.max(3));
             let h1 = hist.clone();
             let h2 = hist.clone();
@@ -845,7 +879,7 @@ fn body(scn: &ParScn, hist: &SharedHist) {
         }
         Api::ReusableFasta => {
             use fasta::Record;
-            let mut src = ChunkSource::new(data, &scn.script, scn.io_fault_at, Some(hist.clone()));
+            let mut src = ChunkSource::new(data, &scn.script, scn.io_fault_at, Some(hist.clone())).with_fault_kind(scn.io_fault_kind);
             if scn.io_fault_at.is_none() && max_record_extent(&scn.input) + 2 <= scn.cap.max(3) {
                 src = src.with_bound(q, scn.cap.max(3));
             }
@@ -1099,6 +1133,7 @@ pub fn gen_scn(id: &str, rng: &Rng, thorough: bool) -> ParScn {
         cap: 0,
         script: vec![],
         io_fault_at: None,
+        io_fault_kind: 0,
         consumer: Consumer::Drain,
         fail_reader_init: false,
         fail_dataset_init_at: None,
@@ -1113,6 +1148,7 @@ pub fn gen_scn(id: &str, rng: &Rng, thorough: bool) -> ParScn {
         sched_seed: rng.next_u64(),
         schedule: None,
         reader_waits_for: 0,
+        pull_past_end: 0,
     };
     let mut n_recs = 0;
     if !generic {
@@ -1137,6 +1173,7 @@ pub fn gen_scn(id: &str, rng: &Rng, thorough: bool) -> ParScn {
         };
         if matches!(id, "C15" | "C08") && rng.chance(1, 6) {
             scn.io_fault_at = Some(rng.small(2 * scn.input.len() / scn.cap.max(1) + 3));
+            scn.io_fault_kind = rng.below(8) as u8;
         }
     }
     // consumer behaviour
@@ -1168,6 +1205,9 @@ pub fn gen_scn(id: &str, rng: &Rng, thorough: bool) -> ParScn {
     }
     if matches!(id, "C08" | "C15") && scn.api == Api::GenericInit && rng.chance(1, 6) {
         scn.reader_waits_for = rng.range(1, 2) as u8;
+    }
+    if matches!(id, "C08" | "C15" | "C07") && set_level && scn.consumer == Consumer::Drain && rng.chance(1, 4) {
+        scn.pull_past_end = rng.range(1, 3) as u8;
     }
     if id == "C16" && matches!(scn.api, Api::FastaInit | Api::FastqInit) && rng.chance(1, 12) {
         // batches that alternate between hundreds of tiny records and one big record: recycled
